@@ -65,6 +65,7 @@ TRUSTED = [
 
 CRASHSITE = os.path.join(common.VERIF, 'harness', 'crashsite')
 PROJ = os.path.join(CRASHSITE, 'proj')
+PROJ2 = os.path.join(CRASHSITE, 'proj2')     # Fortran + wrapped custom targets + tests + pkgconfig/cmake/depmf: every kind of state file
 FAKEBIN = os.path.join(CRASHSITE, 'fakebin')
 GEN_FILE = os.path.join(common.LEAN, 'MesonModel', 'Generated', 'CrashTraces.lean')
 NWORKERS = 16
@@ -89,8 +90,19 @@ HIST: T.Dict[str, T.List[tuple]] = {
     'x1': [('setup', SETUP_ARGS + CROSS)],
     # pkg_config_path comes from the environment of the first setup only: it lives in coredata.dat and nowhere else
     'e2': [('setup', SETUP_ARGS, ENV_FIRST_SETUP), ('configure', ['-Dgamma=true'])],
+    # the rich project (harness/crashsite/proj2), ninja backend
+    'freshr': [],
+    'r1': [('setup', SETUP_ARGS)],
+    'r2': [('setup', SETUP_ARGS), ('configure', ['-Dgamma=true'])],
 }
-SETUP_FLAVOUR = {'fresh': SETUP_ARGS, 'freshn': SETUP_ARGS + NATIVE, 'freshx': SETUP_ARGS + CROSS}
+RICH_HISTS = {'freshr', 'r1', 'r2'}
+
+
+def proj_of(hist: str) -> str:
+    return PROJ2 if hist in RICH_HISTS else PROJ
+
+
+SETUP_FLAVOUR = {'fresh': SETUP_ARGS, 'freshn': SETUP_ARGS + NATIVE, 'freshx': SETUP_ARGS + CROSS, 'freshr': SETUP_ARGS}
 MACHINE_FILE_HISTS = {'freshn', 'freshx', 'n1', 'n2', 'x1'}
 COREDATA_ONLY_HISTS = MACHINE_FILE_HISTS | {'e2'}
 # how the command ends when nobody kills it
@@ -170,20 +182,27 @@ ALL_SCENARIOS = [Scn('setup', 'fresh', b) for b in BACKENDS] + \
      Scn('reconfigure', 'e2', 'ninja', 'noninja'), Scn('reconfigure', 'n2', 'ninja', 'noninja'),
      Scn('reconfigure', 'e2', 'none', 'postconf'), Scn('reconfigure', 'e2', 'none', 'error'),
      Scn('reconfigure', 'e2', 'none', 'invalid'), Scn('configure', 'e2', 'none', 'invalid'),
-     Scn('setup', 'fresh', 'ninja', 'noninja'), Scn('setup', 'freshn', 'ninja', 'postconf')]
+     Scn('setup', 'fresh', 'ninja', 'noninja'), Scn('setup', 'freshn', 'ninja', 'postconf'),
+     # every kind of state file meson writes at configure time
+     Scn('setup', 'freshr', 'ninja'), Scn('reconfigure', 'r2', 'ninja'), Scn('configure', 'r2', 'ninja'),
+     Scn('wipe', 'r1', 'ninja'), Scn('reconfigure', 'r2', 'ninja', 'postconf')]
 QUICK_SCENARIOS = [Scn('setup', 'freshn', 'ninja'), Scn('wipe', 'n2', 'none'), Scn('configure', 'x1', 'none'),
                    Scn('reconfigure', 'n2', 'ninja'), Scn('reconfigure', 'e2', 'ninja', 'noninja'),
-                   Scn('reconfigure', 'e2', 'none', 'postconf'), Scn('configure', 'e2', 'none', 'invalid')]
+                   Scn('reconfigure', 'e2', 'none', 'postconf'), Scn('configure', 'e2', 'none', 'invalid'),
+                   Scn('setup', 'freshr', 'ninja'), Scn('reconfigure', 'r2', 'ninja')]
+# scenarios on the rich project are long: the quick tier kills them at every writer kind and every state file
+# effect, and samples the rest sparsely
+SPARSE_IN_QUICK = 12
 
 
-def meson_argv(cmd: str, args: T.List[str], bd: str, backend: str) -> T.List[str]:
+def meson_argv(cmd: str, args: T.List[str], bd: str, backend: str, proj: str = PROJ) -> T.List[str]:
     m = [sys.executable, os.path.join(common.REPO, 'meson.py')]
     if cmd == 'setup':
-        return m + ['setup', '--backend=' + backend] + args + [bd, PROJ]
+        return m + ['setup', '--backend=' + backend] + args + [bd, proj]
     if cmd == 'reconfigure':
-        return m + ['setup', '--reconfigure'] + args + [bd, PROJ]
+        return m + ['setup', '--reconfigure'] + args + [bd, proj]
     if cmd == 'wipe':
-        return m + ['setup', '--wipe'] + args + [bd, PROJ]
+        return m + ['setup', '--wipe'] + args + [bd, proj]
     if cmd == 'configure':
         return m + ['configure'] + args + [bd]
     raise ValueError(cmd)
@@ -252,8 +271,47 @@ def parse_log(path: str) -> T.List[Raw]:
         w = line.rstrip('\n').split(' ')
         if len(w) < 3:
             continue
-        out.append((w[1], w[2].replace('%20', ' '), w[3].replace('%20', ' ') if len(w) > 3 else ''))
+        out.append((w[1], _norm_tmp(w[2].replace('%20', ' ')), _norm_tmp(w[3].replace('%20', ' ')) if len(w) > 3 else ''))
     return out
+
+
+_TMP_RE = None
+
+
+def _norm_tmp(p: str) -> str:
+    """tempfile names (compiler check directories under meson-private) vary from run to run"""
+    global _TMP_RE
+    if _TMP_RE is None:
+        import re
+        _TMP_RE = re.compile(r'(^|/)tmp[a-z0-9_]{8}(?=/|$)')
+    return _TMP_RE.sub(lambda m: m.group(1) + 'tmp@', p)
+
+
+def file_class(rel: str) -> str:
+    """kind of a written file: digests in names replaced (meson_exe_python3_<digest>.dat)"""
+    import re
+    return re.sub(r'[0-9a-f]{16,}', '<digest>', _norm_tmp(rel))
+
+
+NOT_STATE = {'.gitignore', '.hgignore', 'CACHEDIR.TAG', 'meson-private/meson.lock'}
+
+
+def not_state(p: str) -> bool:
+    """paths that are not state of the build directory: files no meson command reads, out-of-tree copies, and the
+    scratch files of compiler checks (written and consumed inside one run)"""
+    return (p in NOT_STATE or p.startswith('@out') or '/tmp@' in p or p.startswith('meson-private/sanity')
+            or p.startswith('meson-private/tmp@'))
+
+
+def write_set(raw: T.Iterable[Raw]) -> T.List[str]:
+    """every path inside the build dir that the trace creates or writes (opens for writing, renames/copies onto)"""
+    out = set()
+    for k, p, x in raw:
+        if k in ('open_w', 'open_a') and not p.startswith('@out'):
+            out.add(p)
+        if k in ('replace', 'rename', 'copyfile') and x and not x.startswith('@out'):
+            out.add(x)
+    return sorted(out)
 
 
 class Interner:
@@ -436,16 +494,20 @@ def observe(bd: str) -> T.Dict[str, str]:
 ARTEFACTS = ['build.ninja', 'compile_commands.json', 'conf.h']
 
 
-def artefacts(bd: str) -> T.Tuple[T.Dict[str, str], str]:
-    """signature of every output a (re)configuration rewrites, slot path normalised; + the build.ninja text"""
+def artefacts(bd: str, wset: T.Sequence[str] = ()) -> T.Tuple[T.Dict[str, str], str]:
+    """signature of every output a (re)configuration rewrites (the trace's write set, pickles excepted: they are
+    judged by their consumer), slot path normalised; + the build.ninja text"""
     slot = os.path.dirname(bd).encode()
     out: T.Dict[str, str] = {}
     ninja = ''
-    names = list(ARTEFACTS)
+    names = set(ARTEFACTS)
     info = os.path.join(bd, 'meson-info')
     if os.path.isdir(info):
-        names += sorted('meson-info/' + f for f in os.listdir(info) if f.startswith('intro-') and f.endswith('.json'))
-    for rel in names:
+        names |= {'meson-info/' + f for f in os.listdir(info) if f.startswith('intro-') and f.endswith('.json')}
+    names |= {w for w in wset if not w.endswith('.dat') and not w.endswith('.dat.prev') and not w.endswith('~') and w not in NOT_STATE
+              and '/tmp@' not in w and not w.startswith('meson-private/sanity') and not w.endswith('tmp_dump.json')
+              and w != 'meson-private/cmd_line.txt' and not w.startswith('meson-info/meson-info')}
+    for rel in sorted(names):
         p = os.path.join(bd, rel)
         if not os.path.isfile(p):
             continue
@@ -460,6 +522,67 @@ def artefacts(bd: str) -> T.Tuple[T.Dict[str, str], str]:
         if rel == 'build.ninja':
             ninja = data.decode('utf-8', 'replace')
     return out, ninja
+
+
+def consume(bd: str, wset: T.Sequence[str]) -> T.List[T.Tuple[str, str]]:
+    """run the real consumer of every state file the command ever wrote: unpickle every *.dat (what
+    `meson --internal exe --unpickle`, `meson test`, `meson install`, the dependency scanner and `meson configure`
+    do first), json.load every *.json; -> [(file, error)]"""
+    import pickle
+    _impl()
+    bad: T.List[T.Tuple[str, str]] = []
+    names = set(w for w in wset if not not_state(w))
+    priv = os.path.join(bd, 'meson-private')
+    if os.path.isdir(priv):
+        names |= {'meson-private/' + f for f in os.listdir(priv) if f.endswith('.dat')}
+    for rel in sorted(names):
+        p = os.path.join(bd, rel)
+        if not os.path.isfile(p):
+            continue
+        if '<digest>' in file_class(rel) and not referenced(bd, rel):
+            continue      # content-addressed helper that nothing in the directory refers to (any more): no consumer
+        try:
+            if rel.endswith('.dat') or rel.endswith('.dat.prev'):
+                with open(p, 'rb') as f:
+                    pickle.load(f)
+            elif rel.endswith('.json'):
+                with open(p, 'rb') as f:
+                    json.loads(f.read().decode('utf-8'))
+        except Exception as e:
+            bad.append((rel, type(e).__name__))
+    return bad
+
+
+def referenced(bd: str, rel: str) -> bool:
+    """does any other file of the build directory (build.ninja, the pickles and json files of meson-private and
+    meson-info) mention this file's name?"""
+    name = os.path.basename(rel).encode()
+    cands = [os.path.join(bd, 'build.ninja')]
+    for d in ('meson-private', 'meson-info'):
+        dd = os.path.join(bd, d)
+        if os.path.isdir(dd):
+            cands += [os.path.join(dd, f) for f in os.listdir(dd)]
+    for c in cands:
+        if os.path.isfile(c) and os.path.basename(c).encode() != name:
+            try:
+                if name in open(c, 'rb').read():
+                    return True
+            except OSError:
+                pass
+    return False
+
+
+def consumer_commands(bd: str, tmpdir: str) -> T.List[T.Tuple[str, int, str]]:
+    """the consuming commands themselves: `meson test --list`, `meson introspect --all`, `meson configure`"""
+    m = [sys.executable, os.path.join(common.REPO, 'meson.py')]
+    out = []
+    for name, argv in (('test --list', m + ['test', '--list', '--no-rebuild', '-C', bd]),
+                       ('introspect --all', m + ['introspect', '--all', bd]),
+                       ('configure', m + ['configure', bd])):
+        rc, o = run_proc(argv, meson_env(tmpdir))
+        if rc != 0:
+            out.append((name, rc, o[-300:]))
+    return out
 
 
 def leftovers(bd: str) -> T.List[str]:
@@ -497,7 +620,7 @@ class Slot:
         common.rmtree(dst)
         for step in HIST[hist]:
             cmd, args = step[0], step[1]
-            rc, out = run_proc(meson_argv(cmd, args, self.bd, backend),
+            rc, out = run_proc(meson_argv(cmd, args, self.bd, backend, proj_of(hist)),
                                meson_env(self.tmp, extra=step[2] if len(step) > 2 else None))
             if rc != 0:
                 raise HistoryFailed(f'history {hist}/{backend}: `{cmd} {" ".join(args)}` exited {rc}: {out[-600:]}')
@@ -575,50 +698,68 @@ def record(slot: Slot, sc: Scn) -> dict:
         if os.path.exists(os.path.join(slot.bd, 'meson-private', 'cmd_line.txt')) else None
     if os.path.exists(slot.log):
         os.unlink(slot.log)
-    rc, out = run_proc(meson_argv(sc.cmd, sc.args, slot.bd, sc.backend),
+    rc, out = run_proc(meson_argv(sc.cmd, sc.args, slot.bd, sc.backend, proj_of(sc.hist)),
                        meson_env(slot.tmp, slot.bd, slot.log, extra=sc.env_extra))
     raw = parse_log(slot.log)
     post_obs = observe(slot.bd)
     post_vals = coredata_values(os.path.join(slot.bd, 'meson-private', 'coredata.dat')) or {}
+    # the effect trace of the follow-up setup on the directory the (unkilled) command leaves
+    recovery_raw: T.List[Raw] = []
+    if os.path.exists(os.path.join(slot.bd, 'meson-private', 'coredata.dat')):
+        if os.path.exists(slot.log):
+            os.unlink(slot.log)
+        rrc, _ro = run_proc(meson_argv('reconfigure', [], slot.bd, sc.backend, proj_of(sc.hist)),
+                            meson_env(slot.tmp, slot.bd, slot.log))
+        if rrc == 0:
+            recovery_raw = parse_log(slot.log)
+    elif sc.cmd == 'setup':
+        if os.path.exists(slot.log):
+            os.unlink(slot.log)
+        rrc, _ro = run_proc(meson_argv(sc.cmd, sc.args, slot.bd, sc.backend, proj_of(sc.hist)),
+                            meson_env(slot.tmp, slot.bd, slot.log))
+        if rrc == 0:
+            recovery_raw = parse_log(slot.log)
+    orphans = [w for w in write_set(raw) if '<digest>' in file_class(w)
+               and os.path.isfile(os.path.join(slot.bd, w)) and not referenced(slot.bd, w)]
     nomf_vals = None
     if sc.mf and sc.cmd != 'setup' and pre_cl is not None:
         # what a first-time setup with only the -D options stored in the old cmd_line.txt (no machine file) yields
         common.rmtree(slot.bd)
         m = [sys.executable, os.path.join(common.REPO, 'meson.py'), 'setup'] + \
-            [f'-D{k}={v}' for k, v in pre_cl['options'].items()] + [slot.bd, PROJ]
+            [f'-D{k}={v}' for k, v in pre_cl['options'].items()] + [slot.bd, proj_of(sc.hist)]
         rc2, _out2 = run_proc(m, meson_env(slot.tmp))
         if rc2 == 0:
             nomf_vals = coredata_values(os.path.join(slot.bd, 'meson-private', 'coredata.dat'))
     slot.clean_tmp()
-    return {'scn': sc, 'rc': rc, 'nomf_vals': nomf_vals, 'out': out[-800:], 'raw': raw, 'pre_list': pre_list, 'pre_obs': pre_obs,
+    return {'scn': sc, 'rc': rc, 'nomf_vals': nomf_vals, 'recovery_raw': recovery_raw, 'orphans': orphans, 'out': out[-800:], 'raw': raw, 'pre_list': pre_list, 'pre_obs': pre_obs,
             'post_obs': post_obs, 'pre_vals': pre_vals, 'post_vals': post_vals, 'older_vals': older_vals}
 
 
-def record_refs(slot: Slot, sc: Scn) -> dict:
+def record_refs(slot: Slot, sc: Scn, wset: T.Sequence[str] = ()) -> dict:
     """artefacts of an uninterrupted world: the follow-up setup run (a) on the directory as it was before the command
     and (b) on the directory after the command got through (for a command made to fail from outside — no ninja,
     failing postconf script — after the same command line got through without that)"""
     refs: T.Dict[str, T.Optional[T.Dict[str, str]]] = {'old': None, 'new': None}
     slot.restore(sc.hist, sc.backend)
     if os.path.exists(os.path.join(slot.bd, 'meson-private', 'coredata.dat')):
-        rc, _o = run_proc(meson_argv('reconfigure', [], slot.bd, sc.backend), meson_env(slot.tmp))
+        rc, _o = run_proc(meson_argv('reconfigure', [], slot.bd, sc.backend, proj_of(sc.hist)), meson_env(slot.tmp))
         if rc == 0:
-            refs['old'] = artefacts(slot.bd)[0]
+            refs['old'] = artefacts(slot.bd, wset)[0]
     slot.restore(sc.hist, sc.backend)
     extra = sc.env_extra if sc.variant in ('ok', 'invalid', 'error') else None
-    rc, _o = run_proc(meson_argv(sc.cmd, sc.args, slot.bd, sc.backend), meson_env(slot.tmp, extra=extra))
+    rc, _o = run_proc(meson_argv(sc.cmd, sc.args, slot.bd, sc.backend, proj_of(sc.hist)), meson_env(slot.tmp, extra=extra))
     if rc == 0:
-        rc, _o = run_proc(meson_argv('reconfigure', [], slot.bd, sc.backend), meson_env(slot.tmp))
+        rc, _o = run_proc(meson_argv('reconfigure', [], slot.bd, sc.backend, proj_of(sc.hist)), meson_env(slot.tmp))
         if rc == 0:
-            refs['new'] = artefacts(slot.bd)[0]
+            refs['new'] = artefacts(slot.bd, wset)[0]
     slot.clean_tmp()
     return refs
 
 
-def record_fresh(slot: Slot) -> dict:
+def record_fresh(slot: Slot, proj: str) -> dict:
     """what a plain first-time `meson setup` (no -D) yields: the `fresh` configuration"""
     common.rmtree(slot.bd)
-    m = [sys.executable, os.path.join(common.REPO, 'meson.py'), 'setup', slot.bd, PROJ]
+    m = [sys.executable, os.path.join(common.REPO, 'meson.py'), 'setup', slot.bd, proj]
     rc, out = run_proc(m, meson_env(slot.tmp))
     vals = coredata_values(os.path.join(slot.bd, 'meson-private', 'coredata.dat')) or {}
     return {'rc': rc, 'vals': vals}
@@ -628,9 +769,9 @@ def record_all(scenarios: T.List[Scn]) -> None:
     P = pool()
     todo = [sc for sc in scenarios if sc not in _RECORDED]
     futs = {sc: P.submit(record, sc) for sc in todo}
-    if not _FRESH:
-        ff = P.submit(record_fresh)
-        _FRESH.update(ff.result())
+    for proj in sorted({proj_of(sc.hist) for sc in scenarios}):
+        if proj not in _FRESH:
+            _FRESH[proj] = P.submit(record_fresh, proj).result()
     for sc, f in futs.items():
         _RECORDED[sc] = f.result()
 
@@ -638,7 +779,7 @@ def record_all(scenarios: T.List[Scn]) -> None:
 def scenario_model_inputs(rec: dict) -> T.Tuple[Interner, T.Dict[str, str], T.List[Raw], T.List[int]]:
     raw = rec['raw']
     st0 = init_states(rec['pre_list'])
-    I = Interner(set(st0) | paths_of(raw))
+    I = Interner(set(st0) | paths_of(raw) | paths_of(rec.get('recovery_raw', [])))
     effs, start = coalesce(raw)
     return I, st0, effs, start
 
@@ -667,7 +808,12 @@ def gen_tables(ctx: Ctx) -> None:
         lines.append(f'def {sc.lean_name} : Scenario :=')
         lines.append(f'  {{ name := "{sc.name}", cmd := .{sc.cmd}, coredataOnly := {"true" if sc.mf else "false"},')
         lines.append(f'    init := [{init}],')
-        lines.append(f'    trace := [\n    {tr}] }}')
+        rtr = ',\n    '.join(lean_effect(e, I) for e in coalesce(rec.get('recovery_raw', []))[0])
+        ign = ', '.join(str(I(p)) for p in sorted(I.ids, key=I) if not_state(p) or p in rec.get('orphans', []))
+        lines.append('-- paths: ' + ', '.join(f'{i}={file_class(q)}' for q, i in sorted(I.ids.items(), key=lambda kv: kv[1])))
+        lines.append(f'    trace := [\n    {tr}],')
+        lines.append(f'    ignored := [{ign}],')
+        lines.append(f'    recovery := [\n    {rtr}] }}')
         lines.append('')
         names.append(sc.lean_name)
     lines.append('def all : List Scenario := [' + ', '.join(names) + ']')
@@ -690,11 +836,12 @@ def lean_state(s: str) -> str:
 
 # ---------------------------------------------------------------- one crash point on the real code
 
-def crash_point(slot: Slot, sc: Scn, k: int, mode: str, second_always: bool = False) -> dict:
+def crash_point(slot: Slot, sc: Scn, k: int, mode: str, second_always: bool = False,
+                wset: T.Sequence[str] = ()) -> dict:
     slot.restore(sc.hist, sc.backend)
     if os.path.exists(slot.log):
         os.unlink(slot.log)
-    argv = meson_argv(sc.cmd, sc.args, slot.bd, sc.backend)
+    argv = meson_argv(sc.cmd, sc.args, slot.bd, sc.backend, proj_of(sc.hist))
     rc, out = run_proc(argv, meson_env(slot.tmp, slot.bd, slot.log, k, 'torn' if mode == 't' else 'before',
                                        extra=sc.env_extra))
     prefix = parse_log(slot.log)
@@ -702,13 +849,13 @@ def crash_point(slot: Slot, sc: Scn, k: int, mode: str, second_always: bool = Fa
     crashed_vals = coredata_values(os.path.join(slot.bd, 'meson-private', 'coredata.dat'))
     configured = os.path.exists(os.path.join(slot.bd, 'meson-private', 'coredata.dat'))
     if configured:
-        rargv = meson_argv('reconfigure', [], slot.bd, sc.backend)
+        rargv = meson_argv('reconfigure', [], slot.bd, sc.backend, proj_of(sc.hist))
         rkind = 'reconfigure'
     elif sc.cmd == 'setup':
         rargv = argv
         rkind = 'setup-same-args'
     else:
-        rargv = [sys.executable, os.path.join(common.REPO, 'meson.py'), 'setup', slot.bd, PROJ]
+        rargv = [sys.executable, os.path.join(common.REPO, 'meson.py'), 'setup', slot.bd, proj_of(sc.hist)]
         rkind = 'setup'
     rrc, rout = run_proc(rargv, meson_env(slot.tmp))
     trace_back = ('Traceback (most recent call last)' in rout) or ('Unhandled python' in rout)
@@ -716,33 +863,45 @@ def crash_point(slot: Slot, sc: Scn, k: int, mode: str, second_always: bool = Fa
     clp = os.path.join(slot.bd, 'meson-private', 'cmd_line.txt')
     after = {'meson-private/cmd_line.txt': 'a' if not os.path.exists(clp) else ('t' if cmdline_dict(clp) is None else 'o')}
     bdat = build_dat_ok(slot.bd)
-    arte, ninja_text = artefacts(slot.bd)
+    wall = sorted(set(wset) | set(write_set(prefix)))
+    arte, ninja_text = artefacts(slot.bd, wall)
+    unreadable = consume(slot.bd, wall) if rrc == 0 else []
+    cmds_failed = consumer_commands(slot.bd, slot.tmp) if (rrc == 0 and second_always) else []
     left = leftovers(slot.bd)
     second = None
     if rrc == 0 and (left or second_always):
         # a second recovery must change nothing (no leftover influences the directory)
-        r2, _o2 = run_proc(meson_argv('reconfigure', [], slot.bd, sc.backend), meson_env(slot.tmp))
-        arte2, _n2 = artefacts(slot.bd)
+        r2, _o2 = run_proc(meson_argv('reconfigure', [], slot.bd, sc.backend, proj_of(sc.hist)), meson_env(slot.tmp))
+        arte2, _n2 = artefacts(slot.bd, wall)
+        unreadable += [(f, 'after-second:' + e) for f, e in consume(slot.bd, wall)]
         vals2 = coredata_values(os.path.join(slot.bd, 'meson-private', 'coredata.dat'))
         second = {'rc': r2, 'same_artefacts': arte2 == arte, 'same_values': vals2 == after_vals,
                   'changed': sorted(n for n in set(arte) | set(arte2) if arte.get(n) != arte2.get(n))[:6]}
     slot.clean_tmp()
-    return {'artefacts': arte, 'ninja_text': ninja_text if sc.backend == 'ninja' else '', 'leftovers': left,
+    return {'unreadable': unreadable, 'consumers_failed': cmds_failed, 'artefacts': arte, 'ninja_text': ninja_text if sc.backend == 'ninja' else '', 'leftovers': left,
             'second': second,
             'scn': sc.name, 'k': k, 'mode': mode, 'crash_rc': rc, 'prefix': prefix, 'obs': obs,
             'crashed_vals': crashed_vals, 'recovery': rkind, 'rrc': rrc, 'traceback': trace_back,
             'rout': rout[-1500:], 'after_vals': after_vals, 'after': after, 'build_load_ok': bdat}
 
 
-def choose_points(ctx: Ctx, raw: T.List[Raw], extra: T.Iterable[T.Tuple[int, str]]) -> T.List[T.Tuple[int, str]]:
+def choose_points(ctx: Ctx, raw: T.List[Raw], extra: T.Iterable[T.Tuple[int, str]],
+                  sparse: bool = False) -> T.List[T.Tuple[int, str]]:
     """(raw index, mode): 'b' = killed right before raw effect k, 't' = killed inside it"""
     effs, start = coalesce(raw)
     pts: T.Set[T.Tuple[int, str]] = set(extra)
-    stride = 1 if ctx.deep else 4
+    stride = 1 if ctx.deep else (SPARSE_IN_QUICK if sparse else 4)
     off = ctx.rng.randrange(stride)
     n = len(raw)
+    seen_kinds: T.Set[str] = set()
     for ci, s in enumerate(start):
         e = effs[ci]
+        if e[0] in ('open_w', 'open_a') and e[1] not in NOT_STATE:
+            # every kind of written file at least once, killed right after the open (the file is empty / partly appended)
+            kind = file_class(e[1])
+            if ctx.deep or kind not in seen_kinds:
+                seen_kinds.add(kind)
+                pts.add((s + 1, 'b'))
         end = (start[ci + 1] if ci + 1 < len(start) else n) - 1
         critical = e[1] in FIXED_IDS or (e[0] in ('replace', 'rename', 'copyfile') and e[2] in FIXED_IDS)
         if ctx.deep or critical or ci % stride == off:
@@ -820,6 +979,19 @@ def oracle(ctx: Ctx, rec: dict, r: dict) -> None:
         ctx.violation(f'{sc.cmd}:{culprit(r["obs"])}:options-lost',
                       f'after killing `meson {sc.cmd}` and re-running setup, options have neither their old nor '
                       f'their new value', case)
+        return
+    if r.get('unreadable'):
+        f, err = r['unreadable'][0]
+        case['unreadable_after_recovery'] = r['unreadable'][:6]
+        ctx.violation(f'{sc.cmd}:unreadable-after-recovery:{file_class(f)}',
+                      f'after killing `meson {sc.cmd}` the follow-up setup succeeds but {file_class(f)} stays unreadable '
+                      f'for its consumer ({err})', case)
+        return
+    if r.get('consumers_failed'):
+        name, crc, tail = r['consumers_failed'][0]
+        case['consumer'] = {'command': name, 'rc': crc, 'output_tail': tail}
+        ctx.violation(f'{sc.cmd}:consumer-fails-after-recovery:{name.split()[0]}',
+                      f'after killing `meson {sc.cmd}` and recovering, `meson {name}` fails', case)
         return
     # the recovered directory as a whole: every output the follow-up setup rewrites equals the one of a world where
     # the killed command never ran, or of one where it got through
@@ -918,7 +1090,7 @@ def expected_values(rec: dict, verdict: str, r: dict) -> T.Optional[T.Dict[str, 
     if verdict.startswith('usable:cd:'):
         return r['crashed_vals']          # a loadable coredata.dat is used as it is
     if verdict == 'usable:fresh':
-        return rec['post_vals'] if sc.cmd == 'setup' and sc.variant == 'ok' else (None if sc.cmd == 'setup' else _FRESH['vals'])
+        return rec['post_vals'] if sc.cmd == 'setup' and sc.variant == 'ok' else (None if sc.cmd == 'setup' else _FRESH[proj_of(sc.hist)]['vals'])
     g = verdict.rsplit(':', 1)[1]
     if sc.variant != 'ok' and g != '1':
         return None                       # content written by a command that then failed: no reference snapshot
@@ -1032,6 +1204,10 @@ def check_manifests(ctx: Ctx, sc: Scn, results: T.List[dict]) -> None:
                            'state_after_kill': r['obs']})
 
 
+def scn_wset(rec: dict) -> T.List[str]:
+    return sorted(set(write_set(rec['raw'])) | set(write_set(rec.get('recovery_raw', []))))
+
+
 def model_bad_points(ctx: Ctx, rec: dict) -> T.List[T.Tuple[int, str]]:
     """crash points the model says are not recoverable, as raw (index, mode) — always run for real"""
     if not ctx.model_available:
@@ -1060,7 +1236,7 @@ def run_scenarios(ctx: Ctx, scenarios: T.List[Scn]) -> None:
     P = pool()
     record_all(scenarios)
     futs: T.List[T.Tuple[Scn, concurrent.futures.Future]] = []
-    ref_futs = {sc: P.submit(record_refs, sc) for sc in scenarios if 'refs' not in _RECORDED[sc]}
+    ref_futs = {sc: P.submit(record_refs, sc, scn_wset(_RECORDED[sc])) for sc in scenarios if 'refs' not in _RECORDED[sc]}
     for sc, f in ref_futs.items():
         _RECORDED[sc]['refs'] = f.result()
     for sc in scenarios:
@@ -1082,11 +1258,12 @@ def run_scenarios(ctx: Ctx, scenarios: T.List[Scn]) -> None:
         if not ctx.deep and len(bad) > 16:
             # quick tier: first, last and every 4th of the points the model calls unrecoverable
             bad = [b for i, b in enumerate(bad) if i % 4 == 0 or i == len(bad) - 1]
-        pts = choose_points(ctx, rec['raw'], bad)
+        pts = choose_points(ctx, rec['raw'], bad, sparse=sc.hist in RICH_HISTS)
+        wset = scn_wset(rec)
         ctx.tag('crash-points:' + sc.name, len(pts))
         ctx.tag('effects-recorded:' + sc.name, len(rec['raw']))
         for k, mode in pts:
-            futs.append((sc, P.submit(crash_point, sc, k, mode, bool(ctx.deep and k % 8 == 0))))
+            futs.append((sc, P.submit(crash_point, sc, k, mode, bool(ctx.deep and k % 8 == 0), wset)))
     by: T.Dict[Scn, T.List[dict]] = {}
     for sc, f in futs:
         by.setdefault(sc, []).append(f.result())
@@ -1148,8 +1325,8 @@ def replay(ctx: Ctx, rep: dict) -> None:
         P = pool()
         record_all([sc])
         rec = _RECORDED[sc]
-        _RECORDED[sc]['refs'] = P.submit(record_refs, sc).result()
-        r = P.submit(crash_point, sc, int(case['k']), case.get('mode', 'b'), True).result()
+        _RECORDED[sc]['refs'] = P.submit(record_refs, sc, scn_wset(rec)).result()
+        r = P.submit(crash_point, sc, int(case['k']), case.get('mode', 'b'), True, scn_wset(rec)).result()
         print(json.dumps({k: v for k, v in r.items() if k not in ('prefix', 'ninja_text')}, indent=1, default=repr)[:3000])
         evaluate(ctx, rec, [r])
     finally:
